@@ -5,6 +5,7 @@ from __future__ import annotations
 
 import copy
 import json
+import os
 from collections import Counter
 from typing import Dict, Iterable, List, Optional, Sequence, TextIO, Tuple
 
@@ -213,7 +214,7 @@ class Measurements:
         Args:
             file (str or file-like object): the name of the file, or a file-like object
         """
-        if isinstance(file, str):
+        if isinstance(file, (str, os.PathLike)):
             with open(file, "r") as f:
                 data = json.load(f)
         else:
